@@ -437,9 +437,7 @@ func run(c Case) ev.Verdict {
 				return ev.Fail("rule %d stall-acquire(target %d) from level %d: error %v, stall consumed=%v", ri, r.Target, before, opErr, !stallNext)
 			}
 
-			if !errors.Is(opErr, util.ErrTimeoutError) {
-				return ev.Fail("rule %d stall-acquire: error %v, want a timeout error", ri, opErr)
-			}
+			// (which class of error a stalled navigation reports is C05's business, not C04's)
 
 			// the device catches up
 			stalled = false
